@@ -345,14 +345,21 @@ T* copy_memory_or_deny_access(rlbox_sandbox<T_Sbx>& sandbox,
     }
   }
 
+  // Check the source before anything else is done (a refused request then
+  // leaks nothing). A null source yields no address: refuse it the way memcpy
+  // and memset do
+  tainted<T*, T_Sbx> src_tainted = src;
+  char* src_raw = src_tainted.copy_and_verify_buffer_address(
+    [](uintptr_t val) { return reinterpret_cast<char*>(val); }, num);
+  detail::dynamic_check(
+    src_raw != nullptr,
+    "Performing memory operation copy_memory_or_deny_access on a null pointer");
+
   auto copy = static_cast<T*>(malloc(source_size));
   if (!copy) {
     return nullptr;
   }
 
-  tainted<T*, T_Sbx> src_tainted = src;
-  char* src_raw = src_tainted.copy_and_verify_buffer_address(
-    [](uintptr_t val) { return reinterpret_cast<char*>(val); }, num);
   std::memcpy(copy, src_raw, source_size);
   if (free_source_on_copy) {
     sandbox.free_in_sandbox(src);
